@@ -192,12 +192,20 @@ channel_read_map(struct channel* self, struct channel_reader* reader)
     }
 
     if (!nbytes) {
-        // If nothing is available to read, we still need to advance this
+        // If nothing is left to read in the previous lap, advance this
         // reader's position & cycle bookmarks to the beginning of the queue and
-        // the writer's cycle, respectively.
-        out = 0;
+        // the writer's cycle, respectively, and continue with whatever has been
+        // committed there so that an empty slice always means "drained".
         *pos = 0;
         *cycle = self->cycle;
+        out = self->data;
+        nbytes = self->head;
+        reader->pos = self->head;
+        reader->cycle = self->cycle;
+    }
+
+    if (!nbytes) {
+        out = 0;
     } else {
         reader->state = ChannelState_Mapped;
     }
